@@ -39,6 +39,9 @@ struct Shared {
     int contempt = 0;
 };
 
+// The table keeps one key space per contempt value; so does the oracle.
+U64 regKey(const Shared& S, U64 key) { return key ^ (0xD1B54A32D192ED03ULL * (U64)(unsigned)(S.contempt + 1000)); }
+
 void doInsert(Shared& S, Rng& r) {
     U64 key = S.keys[r.below(S.keys.size())];
     long c = ++S.counter;
@@ -72,8 +75,9 @@ void doInsert(Shared& S, Rng& r) {
     if (isWinScore(score)) raw = score + ply;
     else if (isLoseScore(score)) raw = score - ply;
     // register BEFORE the store becomes visible (another thread may probe between the two halves)
-    if (emptyMove) { S.noMoveRegistry[key].insert(data); S.emptyMoveInserts++; }
-    else { S.registry[key].insert(data); S.moveBits[key].insert(data & 0xFFFFULL); }
+    const U64 rk = regKey(S, key);
+    if (emptyMove) { S.noMoveRegistry[rk].insert(data); S.emptyMoveInserts++; }
+    else { S.registry[rk].insert(data); S.moveBits[rk].insert(data & 0xFFFFULL); }
     S.rawScore[data] = raw;
     S.inserts++;
     S.tt->insert(key, m, type, ply, depth, evalScore);
@@ -87,13 +91,14 @@ void doProbe(Shared& S, Rng& r) {
     if (e.getType() == TType::T_EMPTY) { S.misses++; return; }
     S.hits++;
     U64 data = e.getData() & ~GEN_BUSY_MASK;
-    auto it = S.registry.find(key);
+    const U64 rk = regKey(S, key);
+    auto it = S.registry.find(rk);
     bool known = it != S.registry.end() && it->second.count(data);
     if (!known) {
         // record stored with an empty move: all other fields as one unit; the move is empty or one stored for this very key
-        auto nm = S.noMoveRegistry.find(key);
+        auto nm = S.noMoveRegistry.find(rk);
         U64 mv = data & 0xFFFFULL, rest = data & ~0xFFFFULL;
-        if (nm != S.noMoveRegistry.end() && nm->second.count(rest) && (mv == 0 || S.moveBits[key].count(mv))) {
+        if (nm != S.noMoveRegistry.end() && nm->second.count(rest) && (mv == 0 || S.moveBits[rk].count(mv))) {
             known = true;
             if (mv != 0) S.keptMoveHits++;
             data = rest;
@@ -101,9 +106,17 @@ void doProbe(Shared& S, Rng& r) {
     }
     if (!known) {
         char buf[200];
-        snprintf(buf, sizeof buf, "probe(%016llx) returned data %016llx which was never stored for this key (%zu records registered for it)",
-                 (unsigned long long)key, (unsigned long long)e.getData(), it == S.registry.end() ? (size_t)0 : it->second.size());
-        S.res->violate("C08", "mixed-entry", buf);
+        snprintf(buf, sizeof buf, "probe(%016llx) under contempt %d returned data %016llx which was never stored for this key in this contempt key space (%zu records registered for it)",
+                 (unsigned long long)key, S.contempt, (unsigned long long)e.getData(), it == S.registry.end() ? (size_t)0 : it->second.size());
+        std::string extra;
+        for (int c = -50; c <= 50; c++) {
+            U64 k2 = key ^ (0xD1B54A32D192ED03ULL * (U64)(unsigned)(c + 1000));
+            auto i2 = S.registry.find(k2);
+            if (i2 != S.registry.end() && i2->second.count(data)) extra += " [the same record was stored for this key under contempt " + std::to_string(c) + "]";
+            auto n2 = S.noMoveRegistry.find(k2);
+            if (n2 != S.noMoveRegistry.end() && n2->second.count(data & ~0xFFFFULL)) extra += " [stored with an empty move under contempt " + std::to_string(c) + "]";
+        }
+        S.res->violate("C08", "mixed-entry", buf + extra);
         return;
     }
     // ply shift of mate scores
@@ -159,9 +172,10 @@ void runC08(const Scenario& sc, vf::Result& res) {
     Position tbRoot;
     for (int ph = 0; ph < phases; ph++) {
         // keys: few buckets; same low bits / same top bits so that they collide in one or two buckets
-        S.keys.clear();
+        const bool keepKeys = ph > 0 && r.chance(0.5); // the same positions come back, possibly under another contempt
+        if (!keepKeys) S.keys.clear();
         U64 base = r.next();
-        for (int i = 0; i < nKeys; i++) {
+        for (int i = 0; i < nKeys && !keepKeys; i++) {
             U64 k = base;
             int mode = (int)r.below(3);
             if (mode == 0) k ^= (r.next() & 0x0000FFFFFFFF0000ULL);          // same bucket (same top 16 and low bits), other middle bits
@@ -169,7 +183,7 @@ void runC08(const Scenario& sc, vf::Result& res) {
             else k = r.next();
             S.keys.push_back(k);
         }
-        if (r.chance(0.3)) { S.contempt = (int)r.range(-50, 50); tt.setWhiteContempt(S.contempt); }
+        if (r.chance(0.4)) { S.contempt = r.chance(0.4) ? 0 : (int)r.range(-50, 50); tt.setWhiteContempt(S.contempt); }
         sess::setTTYield(sc.knobInt("tt_yield", 1) != 0);
         std::vector<std::thread> th;
         for (int t = 0; t < nThreads; t++) {
@@ -208,9 +222,13 @@ void runC08(const Scenario& sc, vf::Result& res) {
             static const U64 sizes[] = {512, 516, 1000, 1024, 4096, 65536, 65536 * 3, 100000, 262144, 524288 + 4, 65536 * 8, 65536 * 16};
             U64 ne = sizes[r.below(sizeof(sizes) / sizeof(sizes[0]))];
             if (r.chance(0.3)) ne = (U64)r.range(512, 300000);
+            const U64 bytesBefore = tt.byteSize();
             tt.reSize(ne);
-            S.registry.clear(); S.noMoveRegistry.clear(); S.moveBits.clear();
-            tbResident = false;
+            if (tt.byteSize() != bytesBefore) { // a resize to the current size keeps the table and everything in it
+                S.registry.clear(); S.noMoveRegistry.clear(); S.moveBits.clear();
+                tbResident = false;
+            } else
+                res.counters["probe_resize_same_size"]++;
             res.counters["op_resize"]++;
         } else if (q == 2) { tt.nextGeneration(); res.counters["op_next_generation"]++; }
         else if (q == 3 && tt.byteSize() >= 8 * 1024 * 1024) {
